@@ -6,6 +6,7 @@ import (
 	"errors"
 	"net/url"
 	"reflect"
+	"sync"
 
 	"github.com/dgraph-io/badger"
 	"github.com/jirenius/go-res/logger"
@@ -22,6 +23,7 @@ type QueryStore struct {
 	st            *Store
 	onQueryChange []func(store.QueryChange)
 	tq            *taskqueue.TaskQueue
+	tqmu          sync.Mutex // Held while waiting to enqueue a task
 	log           logger.Logger
 	idxs          map[string]Index
 	iq            func(qs *QueryStore, q url.Values) (*IndexQuery, error)
@@ -170,12 +172,23 @@ func (qs *QueryStore) Flush() {
 	// when it has completed. As tasks are run one at a time in order, wait for
 	// a task of our own instead, to know that all previous tasks have completed.
 	done := make(chan struct{})
-	qs.tq.Do(func() { close(done) })
+	qs.enqueue(func() { close(done) })
 	<-done
 }
 
+// enqueue adds a task to the indexing queue, waiting for room if the queue is
+// full. The task queue wakes a single waiting goroutine for each task taken
+// off a full queue, and only when the queue is full at that moment. With
+// several goroutines waiting for room, some may never be woken. A single
+// goroutine at a time is therefore let to wait on the queue.
+func (qs *QueryStore) enqueue(task func()) {
+	qs.tqmu.Lock()
+	qs.tq.Do(task)
+	qs.tqmu.Unlock()
+}
+
 func (qs *QueryStore) handleChange(id string, before, after interface{}) {
-	qs.tq.Do(func() {
+	qs.enqueue(func() {
 		verifPoint("index.begin", id)
 		err := qs.updateIndex(id, before, after)
 		if err != nil {
